@@ -3,6 +3,7 @@ package c14
 
 import (
 	"fmt"
+	"google.golang.org/protobuf/types/known/timestamppb"
 	"sort"
 	"strings"
 	"time"
@@ -150,7 +151,28 @@ func bases() []base {
 		{"full-dup", dup},
 		{"full20", full20()},
 		{"full-subsecond-dates", subsec()},
+		{"full-pre-epoch-subsecond-dates", preEpoch()},
+		{"full-deep", fullDeep()},
 	}
+}
+
+// preEpoch: the three dates before 1970 with half a second (negative seconds, positive nanos: rounding toward zero and
+// rounding down differ).
+func preEpoch() *sbom.Node {
+	n := &sbom.Node{}
+	gen.Full(n, "A", 2)
+	for i, ts := range []*timestamppb.Timestamp{n.ReleaseDate, n.BuildDate, n.ValidUntilDate} {
+		ts.Seconds, ts.Nanos = -1_000_000_000-int64(i), 500_000_000
+	}
+	return n
+}
+
+// fullDeep: three entries in every list and map of the nested messages as well (an external reference with three
+// hashes, persons with three contacts who have three contacts).
+func fullDeep() *sbom.Node {
+	n := &sbom.Node{}
+	gen.FullDeep(n, "A", 3, 2)
+	return n
 }
 
 func full20() *sbom.Node {
@@ -183,6 +205,10 @@ func Run(c *engine.Ctx) {
 		depth := 2
 		devs := gen.Deviations(b.Node, depth)
 		c.Group("base-" + b.Label)
+		maxDev := maxDev
+		if (b.Label == "full-deep" || b.Label == "full-pre-epoch-subsecond-dates") && !c.Thorough() {
+			maxDev = 1 // quick tier: single deviations on the widest bases
+		}
 		c.Bound("base-"+b.Label, fmt.Sprintf("%d single deviations; all subsets of size <= %d (size 3 only over top-level deviations of distinct fields), both directions", len(devs), maxDev))
 		run := func(idx []int) {
 			labels := make([]string, len(idx))
@@ -212,7 +238,7 @@ func Run(c *engine.Ctx) {
 				break
 			}
 			run([]int{i})
-			for j := i + 1; j < len(devs); j++ {
+			for j := i + 1; j < len(devs) && maxDev >= 2; j++ {
 				run([]int{i, j})
 				if maxDev >= 3 && !strings.Contains(devs[i].Label, ".") && !strings.Contains(devs[j].Label, ".") {
 					for k := j + 1; k < len(devs); k++ {
